@@ -234,9 +234,11 @@ def tier_arg(argv):
         if argv[i] == "--tier":
             tier = argv[i + 1]
             i += 1
-        elif argv[i] == "--replay":
+        elif argv[i] in ("--replay", "replay"):
             replay = argv[i + 1]
             i += 1
+        elif argv[i] in ("quick", "thorough"):
+            tier = argv[i]
         i += 1
     return tier, replay
 
